@@ -468,7 +468,9 @@ impl Read for SimDisk {
             }
             n
         };
-        buf[..n].copy_from_slice(&st.data[pos as usize..pos as usize + n]);
+        if n > 0 {
+            buf[..n].copy_from_slice(&st.data[pos as usize..pos as usize + n]);
+        }
         st.pos += n as u64;
         ctx.stats.bytes_read += n as u64;
         op.moved = n as u64;
